@@ -5,7 +5,7 @@
 (* information_schema.df_settings) are validated against Config.           *)
 (* Texts are interned to integers by the harness (0 = no value).           *)
 (*                                                                         *)
-(* One line per run: [keys |-> N, over |-> <<[k, js]...>>, ev |-> <<...>>] *)
+(* One line per run: [keys |-> N, over |-> <<[k, js]...>>, raw |-> <<[k, js]...>>, ev |-> <<...>>] *)
 (*  init  [op, cfg]                 the texts printed for every key        *)
 (*  show  [op, k, t]                a front end printed t for key k        *)
 (*  set   [op, k, t, ok, ch, plain, inval]   Set(k, t) returned ok / error;*)
@@ -39,6 +39,9 @@ N == Runs[run].keys
 
 Over(k) == UNION {{o.js[i] : i \in 1..Len(o.js)} : o \in {Runs[run].over[i] : i \in {j \in 1..Len(Runs[run].over) : Runs[run].over[j].k = k}}}
 
+\* keys that are a second, finer observation of k's real value (e.g. the byte count behind a printed size)
+Raw(k) == UNION {{o.js[i] : i \in 1..Len(o.js)} : o \in {Runs[run].raw[i] : i \in {j \in 1..Len(Runs[run].raw) : Runs[run].raw[j].k = k}}}
+
 Init == /\ run \in 1..Len(Runs)
         /\ l = 2
         /\ cfg = [k \in 1..Runs[run].keys |-> Runs[run].ev[1].cfg[k]]
@@ -56,7 +59,7 @@ AcceptSet(e) ==
     IF ~e.ok THEN /\ e.ch = <<>>                       \* invalid => nothing changes
                   /\ <<e.k, e.t>> \notin seen          \* a printed text is never rejected
     ELSE /\ ~e.inval                                   \* the invalid pool is rejected
-         /\ Changed(e) \subseteq ({e.k} \cup Over(e.k))
+         /\ Changed(e) \subseteq ({e.k} \cup Over(e.k) \cup Raw(e.k))
          /\ e.plain => c = e.t                         \* canonical spellings print back verbatim
          /\ <<e.k, e.t>> \in seen => c = e.t           \* a printed text is a fixpoint
          /\ (e.t = cfg[e.k] /\ Over(e.k) = {}) => e.ch = <<>>   \* Set(k, Show(k)) = identity
